@@ -45,6 +45,16 @@ def index_parts(idx):
         if at[0] == 'call' and len(at) == 4 and not at[3] and at[2]:
             labs = [term_from_key(a) for a in at[2]]
             if all(l is not None for l in labs): return [('map', at[1], l) for l in labs]
+        if at[0] == 'valof' and len(at) == 3:
+            # the position half of an item of X.mapping.items(): the index of the label half
+            mt = term_from_key(at[2]); ma = mt.as_atom() if isinstance(mt, Poly) else None
+            if isinstance(ma, tuple) and len(ma) == 3 and ma[0] == '.' and ma[2] == 'mapping':
+                return [('map', ma[1], Poly.atom(('keyof', at[1], at[2])))]
+        if at[0] == 'β' and len(at) == 3:
+            # zip(X.keys, X.values): the position that travels with the label of the same pass
+            mt = term_from_key(at[2]); ma = mt.as_atom() if isinstance(mt, Poly) else None
+            if isinstance(ma, tuple) and len(ma) == 3 and ma[0] == '.' and ma[2] == 'values':
+                return [('map', ma[1], Poly.atom(('β', at[1], tkey(Poly.atom(('.', ma[1], 'keys'))))))]
         if at[0] == 'idx':
             return [('enum', (at[1], at[2]), Poly.atom(('β', at[1], at[2])))]
     return [('raw', idx)]
